@@ -29,6 +29,10 @@ Definition spec_inferred (untyped : list (string * dkind)) (observed : list (str
                     | None => false
                     end) observed.
 
+(* what "ignored" means at the call site of config_for: a str names ONE parameter *)
+Definition spec_ignore_names (i : ignore_form) : list string :=
+  match i with IgAbsent => [] | IgStr s => [s] | IgTuple l | IgList l => l end.
+
 Section V.
   Variable V : Type.
   Variable veqb : V -> V -> bool.
